@@ -127,8 +127,16 @@ def run(chk):
                     if not is_ctor:
                         scen.append({"ptr": cfg, "other_ws": ows, "this_ws": ows, "self": True})
             results = []
+            from . import c12
+            from ..own import layout_hook
+            try:
+                l_dirty, l_rebuild, l_ins, l_outs = c12.layout_roles(F, E, cls)
+            except Broken:
+                l_dirty, l_rebuild, l_ins, l_outs = None, None, set(), set()
             for sc in scen:
                 S = Sim(F, cls, sc, sp_map, owning, is_ctor, other_id=other_id)
+                if l_rebuild is not None:
+                    S.hook = layout_hook(l_rebuild, l_dirty, l_ins, l_outs)
                 try:
                     S.run(op)
                 except Unknown as ex:
@@ -169,6 +177,10 @@ def run(chk):
                             bad = (sc, "plain pointer ends as %s" % show(v))
                     else:
                         okv = v == ("val", "other", name) or (sc["self"] and v == ("val", "this", name))
+                        if not okv and l_rebuild is not None and (name in l_outs or name == l_dirty):
+                            # a lazily rebuilt cache member: rebuilding it (or marking it dirty) instead of copying it is as
+                            # good, provided the rebuild saw the final inputs - that ordering is C09-R3's obligation
+                            okv = v[0] in ("rebuilt", "bool")
                         if not okv and name in R1_EXCEPTIONS and v in (("val", "this", name), ("uninit",)):
                             okv = True
                         if not okv:
@@ -177,6 +189,16 @@ def run(chk):
                         break
                 rule = "C15-R2" if name in sp_map else ("C15-R3" if name in owning else "C15-R1")
                 chk.ob(rule, inst, bad is None, where, ("%d alias configurations" % len(results)) if bad is None else "with %s: %s" % (describe(bad[0]), bad[1]), construct="%s::%s/%s" % (cls, opname, name))
+            if l_rebuild is not None:
+                from ..own import cache_consistent
+                why = None
+                for sc, S in results:
+                    if sc["self"]:
+                        continue
+                    want_in = {m_: ((("addr", "this", sp_map[m_]) if sc["ptr"][m_] == "own" else ("ext", m_)) if m_ in sp_map else ("val", "other", m_)) for m_ in l_ins}
+                    why = why or cache_consistent(S.state, l_dirty, l_ins, [o for o in l_outs if o in S.state], want_in)
+                chk.ob("C15-R1", "%s %s: the cached variable layout of the copy matches the inputs it received (copied with them, or rebuilt / marked dirty after the last of them)" % (opname, cls),
+                       why is None, where, why or "", construct="%s::%s/layout-cache" % (cls, opname))
             if not is_ctor:
                 chk.ob("C15-R3", "%s self-assignment leaves every member as it was" % cls, True, where, "covered by the self-assignment configurations above", construct="%s::copy-assignment/self" % cls)
         # every other function that stores into a self-referential pointer (setters, private helpers): afterwards the
